@@ -744,7 +744,7 @@ func main() {
 	if !vh.Thorough() {
 		always := func(in *inst) bool {
 			switch in.rep {
-			case "SuInt", "IntVal", "SuDnum.FromInt", "SuDnum.Mul", "SuStr", "SuConcat", "SuExcept",
+			case "SuInt", "IntVal", "SuDnum.FromInt", "SuDnum.Mul", "SuStr", "SuConcat", "SuConcat.shared", "SuExcept",
 				"SuObject", "SuObject.revnamed", "SuRecord":
 				return true
 			}
